@@ -1,4 +1,5 @@
-From PV.Model Require Import Machine Mapping Views Headers Wrap.
+From PV.Model Require Import Machine Mapping Views Headers Wrap WrapDirs Json WrapJson.
+From PV.Model Require Exports Imports Dirs.
 From PV.Spec Require Import HeaderSpec WrapSpec.
 Require Import ExtrOcamlBasic.
 Extraction Language OCaml.
@@ -11,4 +12,12 @@ Extraction "../ocaml/gen/wrap_model.ml"
   op_derva op_derva_copy op_derva_slice op_derva_slice_s op_derva_slice_f op_derva_c_str op_check_sum op_code_range op_image_range
   details_dd_sections details_dd_sections_orig acc_exports acc_tls acc_load_config acc_debug acc_base_relocs
   acc_security acc_security_orig json_is_null le_value rd32 by_name
-  select_spec select_ok fmt_by_magic details_ok details_spec null_ok acceptb.
+  select_spec select_ok fmt_by_magic details_ok details_spec null_ok acceptb
+  (* second round: the directory wrappers and the JSON model *)
+  pe_of op_exports_by op_cstr wrap_exports_by wby_iter wby_iter_names wby_iter_name_indices
+  Exports.iter Exports.iter_names Exports.iter_name_indices
+  op_imports op_descs op_desc_int wrap_imports_iter wrap_desc_int wrap_desc_iat op_desc_iat winto
+  op_debug op_debug_dirs wrap_debug_iter op_tls op_load_config op_security op_exception
+  trimn sec_name_bytes
+  json_of_image wrap_json wrap_json_text print_json parse_json well_formed json_get jfield jindex jkeys utf8_valid
+  json_text_ok drop_member k_resources.
